@@ -797,7 +797,8 @@ func (w *World) pinnedIn(lo, hi int64) bool {
 
 func (w *World) applyPrune(op Op) *Violation {
 	n := op.N
-	if n < w.Latest && w.pinnedIn(w.First, n) {
+	belowLegacyBoundary := w.LegacyLatest > 0 && n < w.LegacyLatest // such a request deletes nothing (and is not refused either)
+	if n < w.Latest && w.pinnedIn(w.First, n) && !belowLegacyBoundary {
 		// a version held by an open export: the request must be rejected (sync pruning) and have no effect
 		before := w.rawDump()
 		err := w.Tree.DeleteVersionsTo(n)
